@@ -627,3 +627,59 @@ Proof. reflexivity. Qed.
 Lemma v4_mapped_entry x :
   norm (entry_pfx (EAddr (A4 x))) = norm (entry_pfx (EAddr (A6 (v4_base + x)))).
 Proof. reflexivity. Qed.
+
+(** The merge loop only ever drops prefixes: what it keeps was loaded, in the
+    order it was sorted in, and the result is never longer than its input. *)
+Lemma merge_step_incl acc n p : In p (merge_step acc n) -> p = n \/ In p acc.
+Proof.
+  destruct acc as [|lv rest]; cbn [merge_step].
+  - intros [H|[]]. left. symmetry. exact H.
+  - destruct (base n =? base lv).
+    + destruct (bits n <? bits lv).
+      * intros [H|H]; [left; symmetry; exact H | right; right; exact H].
+      * intro H. right. exact H.
+    + destruct (negb (covers lv (base n))).
+      * intros [H|H]; [left; symmetry; exact H | right; exact H].
+      * intro H. right. exact H.
+Qed.
+
+Lemma merge_step_length acc n : (length (merge_step acc n) <= S (length acc))%nat.
+Proof.
+  destruct acc as [|lv rest]; cbn [merge_step]; [cbn; lia|].
+  destruct (base n =? base lv); [destruct (bits n <? bits lv)|destruct (negb (covers lv (base n)))];
+    cbn [length]; lia.
+Qed.
+
+Lemma merge_fold_incl l : forall acc p, In p (fold_left merge_step l acc) -> In p acc \/ In p l.
+Proof.
+  induction l as [|n l IH]; intros acc p H; cbn [fold_left] in H.
+  - left. exact H.
+  - destruct (IH _ _ H) as [H1|H1].
+    + destruct (merge_step_incl _ _ _ H1) as [-> |H2]; [right; left; reflexivity | left; exact H2].
+    + right. right. exact H1.
+Qed.
+
+Lemma merge_fold_length l : forall acc,
+  (length (fold_left merge_step l acc) <= length acc + length l)%nat.
+Proof.
+  induction l as [|n l IH]; intro acc; cbn [fold_left length]; [lia|].
+  specialize (IH (merge_step acc n)). pose proof (merge_step_length acc n). lia.
+Qed.
+
+Theorem merge_only_drops l :
+  (forall p, In p (merge l) -> In p l) /\ (length (merge l) <= length l)%nat.
+Proof.
+  unfold merge. split.
+  - intros p H. apply in_rev in H. destruct (merge_fold_incl _ _ _ H) as [[]|H']. exact H'.
+  - rewrite rev_length. apply (merge_fold_length l []).
+Qed.
+
+(** Consequently every prefix held by a sorted list is the stored form of a
+    prefix the caller loaded. *)
+Theorem sorted_list_from_loaded (ps : list rpfx) (l' : list pfx) p :
+  Permutation (map norm ps) l' -> In p (merge l') -> exists r, In r ps /\ p = norm r.
+Proof.
+  intros P H. apply (proj1 (merge_only_drops l')) in H.
+  apply (Permutation_in _ (Permutation_sym P)) in H.
+  apply in_map_iff in H. destruct H as (r & E & I). exists r. split; [exact I | symmetry; exact E].
+Qed.
